@@ -4,40 +4,46 @@
     The end face is the disk with centre [c], (not necessarily unit) normal [n] and radius [R].
     A vertex [v] lies on the end plane when its distance to the plane is at most 1e-6 R; it is on the
     rim when its distance to the axis is R up to a relative 1e-6 (in the square), inside when it is
-    smaller than that.  Everything is exact rational arithmetic on the binary64 values. *)
-From Coq Require Import List Bool Arith QArith.
+    smaller than that.  Everything is exact integer arithmetic on the binary64 values: all positions,
+    the radius and TOL of one case are integer mantissas at the common unit 2^-[rc_exp]; the normal
+    only gives a direction and is written at a unit of its own (every predicate below is homogeneous
+    in it). *)
+From Coq Require Import List Bool Arith ZArith.
 From CB Require Import Model.C18_Finder.
 Import ListNotations.
-Open Scope Q_scope.
+Open Scope Z_scope.
 
-Definition eps_plane : Q := 1 # 1000000000000.   (* (1e-6)^2 *)
-Definition eps_rim : Q := 1 # 1000000.
+Definition inv_eps_plane : Z := 1000000000000.   (* 1 / (1e-6)^2 *)
+Definition inv_eps_rim : Z := 1000000.           (* 1 / 1e-6 *)
 
-Definition Qabs' (x : Q) : Q := if Qle_bool 0 x then x else - x.
-
-Definition axial (c n v : qvec) : Q := qdot (qsub v c) n.
+(** (v - c) . n  =  |n| times the signed distance from the end plane *)
+Definition axial (c n v : zvec) : Z := zdot (zsub v c) n.
 
 (** |n|^2 times the squared distance from the axis *)
-Definition radial2n (c n v : qvec) : Q := qdist2 v c * qdot n n - axial c n v * axial c n v.
+Definition radial2n (c n v : zvec) : Z := zdist2 v c * zdot n n - axial c n v * axial c n v.
 
-Definition on_end (c n : qvec) (R : Q) (v : qvec) : bool :=
-  Qle_bool (axial c n v * axial c n v) (eps_plane * R * R * qdot n n).
+(** dist_plane^2 <= 1e-12 R^2 *)
+Definition on_end (c n : zvec) (R : Z) (v : zvec) : bool :=
+  axial c n v * axial c n v * inv_eps_plane <=? R * R * zdot n n.
 
-Definition is_rim (c n : qvec) (R : Q) (v : qvec) : bool :=
-  on_end c n R v && Qle_bool (Qabs' (radial2n c n v - R * R * qdot n n)) (eps_rim * R * R * qdot n n).
+(** | dist_axis^2 - R^2 | <= 1e-6 R^2 *)
+Definition is_rim (c n : zvec) (R : Z) (v : zvec) : bool :=
+  on_end c n R v && (Z.abs (radial2n c n v - R * R * zdot n n) * inv_eps_rim <=? R * R * zdot n n).
 
-Definition is_inner (c n : qvec) (R : Q) (v : qvec) : bool :=
-  on_end c n R v && Qltb (radial2n c n v) ((1 - eps_rim) * R * R * qdot n n).
+(** dist_axis^2 < (1 - 1e-6) R^2 *)
+Definition is_inner (c n : zvec) (R : Z) (v : zvec) : bool :=
+  on_end c n R v && (radial2n c n v * inv_eps_rim <? (inv_eps_rim - 1) * (R * R * zdot n n)).
 
 Record round_case := {
   rc_id : nat;
-  rc_tol : Q;
-  rc_verts : list qvec;             (* mesh.vertices, in order *)
-  rc_core : list (list qvec);       (* points of the faces of sketch.core of the chosen end *)
-  rc_shell : list (list qvec);      (* points of the faces of sketch.shell *)
-  rc_center : qvec;                 (* the disk, from the constructor arguments *)
-  rc_normal : qvec;
-  rc_radius : Q;
+  rc_exp : Z;                       (* unit of this case: 2^-rc_exp *)
+  rc_tol : Z;                       (* constants.TOL *)
+  rc_verts : list zvec;             (* mesh.vertices, in order *)
+  rc_core : list (list zvec);       (* points of the faces of sketch.core of the chosen end *)
+  rc_shell : list (list zvec);      (* points of the faces of sketch.shell *)
+  rc_center : zvec;                 (* the disk, from the constructor arguments *)
+  rc_normal : zvec;                 (* a positive multiple of the normal *)
+  rc_radius : Z;
   rc_found_core : list nat;         (* what RoundSolidFinder.find_core returned (sorted indices) *)
   rc_found_shell : list nat
 }.
